@@ -104,6 +104,27 @@ inductive Op
   | setCached (c : CellId) (b : Bool)
   | delCell (c : CellId)
   | newCell (c : CellId) (f : Key → Prog) (cached allowNone : Bool)
+  /-- `mx.set_recursion(k)`: the limit changes, nothing is cleared -/
+  | maxdepth (k : Nat)
+  /-- the administrative calls (`start_stacktrace`, `get_error`, …): no effect on the state -/
+  | admin (a : Admin)
+
+/-- `mx.set_recursion(k)` -/
+def _root_.MxModel.Exec.Env.withMaxdepth (env : Env) (k : Nat) : Env := { env with maxdepth := k }
+
+theorem wf_withMaxdepth {env : Env} {lt : Node → Node → Prop} (h : WF env lt) (k : Nat) :
+    WF (env.withMaxdepth k) lt := ⟨h.ranked, h.noCatch, h.scoping⟩
+
+/-- the invariant does not mention the recursion limit -/
+theorem ci_withMaxdepth {env : Env} {lt : Node → Node → Prop} {s : St} (h : CI env lt s) (k : Nat) :
+    CI (env.withMaxdepth k) lt s :=
+  ⟨⟨h.gi.nodesHeld, h.gi.heldNodes, h.gi.stackUnheld, h.gi.edgesOrd, h.gi.edgeNodes, h.gi.inputsHeld,
+    h.gi.inputsNoPreds, h.gi.elemCached⟩, h.quiet,
+   fun n v hl hin => by
+     obtain ⟨tr, hc⟩ := h.certs n v hl hin
+     exact ⟨tr, ⟨replay_congr env (env.withMaxdepth k) tr n.1 _ v hc.replay
+       (fun ev _ => by cases ev <;> simp [Stable, Env.withMaxdepth]), hc.noneOK, hc.events⟩⟩,
+   ⟨h.alive.nodes, h.alive.stack, h.alive.objs⟩, h.rgHeld⟩
 
 /-- one operation on the definitions and the mechanism state, in modelx's order: the clearing
 happens while the old definitions are in force, then the definition changes.  An operation
@@ -122,6 +143,8 @@ def step : Env × St → Op → Env × St
     if env.cached c = b || !env.alive c then (env, s) else (env.withCached c b, s.setFormula c)
   | (env, s), .delCell c => if env.alive c then (env.withAlive c false, s.delCell env c) else (env, s)
   | (env, s), .newCell c f b an => if env.alive c then (env, s) else (env.withCell c f b an, s.newCell env c)
+  | (env, s), .maxdepth k => (env.withMaxdepth k, s)
+  | (env, s), .admin a => (env, s.admin a)
 
 def run (st : Env × St) (ops : List Op) : Env × St := ops.foldl step st
 
@@ -181,6 +204,8 @@ theorem step_ci (lt : Node → Node → Prop) (ho : StrictOrder lt) (st : Env ×
       refine newCell_ci h (by simpa using hd) (batchEdit_withCell env c f b an) ?_
       intro c' _ hne
       simp [Env.withCell, hne]
+  | maxdepth k => exact ci_withMaxdepth h k
+  | admin a => exact h
 
 theorem run_ci (lt : Node → Node → Prop) (ho : StrictOrder lt) : ∀ (ops : List Op) (st : Env × St),
     WF st.1 lt → CI st.1 lt st.2 → Admissible lt st ops →
